@@ -23,6 +23,9 @@
     input files: `run_never_panics`.  Together with the signal half: `run_outcome_classified`.
   What the model does not mark as a panic site (a Go runtime crash the model has no `throwPanic`
   for) is covered by the correspondence check (class `panic`), not by these theorems.
+  `run_outcome_classified` is exactly the conjunction of the two exclusions: besides success and
+  the three error kinds it accepts the model outcomes `.oof` and `.unmodelled`.  The command-line
+  clause of the property (exit status, stderr) has no theorem here.
 -/
 import Jqawk.Lemmas.DriverSignals
 import Jqawk.Lemmas.ParserScope
@@ -60,6 +63,18 @@ theorem call_absorbs (prog : Program) (hfs : prog.FnScoped) (g : Sig) (hg : g.co
     (n pos : Nat) (f : CellId) (args : List CellId) (s s' : St) :
     callFunction prog n pos f args s ≠ .err (.sig g) s' :=
   (allNoSig prog g hg hfs n).call pos f args s s'
+
+/-- non-vacuity of the hypotheses of the three theorems above: a parsed program with a function
+    and loops passes the decidable scope check (hence is `FnScoped`: `wellScoped_of_B`); a `while`
+    whose body contains a `break` does not let it out syntactically (`canS`), a bare `break` would,
+    and a literal loop header raises neither `break` nor `continue` (`canE`) -/
+example : (match parseProgramSrc expectedRuleTable
+      b!"function f(x) { while (x) { if (x > 3) break; x++ } return x } $ > 1 { print f($) }" with
+    | .ok p => p.wellScopedB
+    | _ => false) = true := by decide +kernel
+example : canS .brk (.while_ (.lit ⟨.true_, 0, []⟩) (.block ⟨.lcurly, 0, []⟩ [.brk ⟨.break_, 0, []⟩])) = false
+    ∧ canS .brk (.brk ⟨.break_, 0, []⟩) = true
+    ∧ canE .brk (.lit ⟨.true_, 0, []⟩) = false ∧ canE .cont (.lit ⟨.true_, 0, []⟩) = false := by decide
 
 /-- the selector evaluation of the driver reports no signal other than as `exit`/`next` -/
 theorem selector_not_sentinel (tbl : RuleTable) (sel : Bytes) (rootValue : JVal) (s : St)
@@ -362,7 +377,8 @@ theorem stmt_never_panics (prog : Program) (hwf : prog.wfB = true) (n : Nat) (st
   · intro m s' he; rw [he] at h; exact h
   · intro s' he; rw [he] at h; exact h.1
 
-/-- the same for expressions; the cell handed out is a cell of the heap region the evaluator owns -/
+/-- the same for expressions (no panic; the invariant after the expression, and which heap region
+    the result cell lies in, are in `allNP` but not part of this statement) -/
 theorem expr_never_panics (prog : Program) (hwf : prog.wfB = true) (n : Nat) (e : Expr)
     (he : e.wfB = true) (s : St) (hs : RunInv prog s) (m : String) (s' : St) :
     evalExpr prog n e s ≠ .err (.panic m) s' := by
